@@ -401,7 +401,12 @@ fn is_follow_up(op: &COp) -> bool {
 
 fn check(case: &Case, obs: &mut Obs) -> Verdict {
     let mut tags = Tags::default();
-    let built = guard(|| build_book(std::slice::from_ref(&case.sheet), &mut tags));
+    // cells and dimension settings only: the merge/comment variants of `far` belong to C07
+    let mut sheet = case.sheet.clone();
+    if sheet.far >= 6 {
+        sheet.far -= 5;
+    }
+    let built = guard(|| build_book(std::slice::from_ref(&sheet), &mut tags));
     let (mut book, _model) = match built {
         Ok(x) => x,
         Err(p) => return Verdict::fail(format!("build/panic:{}", p.site()), p.short()),
